@@ -1,11 +1,11 @@
 package main
 
 import (
-	"sync"
 	"fmt"
 	"math/big"
 	"sort"
 	"strings"
+	"sync"
 )
 
 // Sort is an SMT-LIB sort, written as it is printed.
